@@ -13,7 +13,10 @@ THEOREMS = ["CKT.C16." + t for t in ["exec_frame", "frame_sound", "all_framed", 
 RULE = ("random circuits on 2-4 qubits mixing standard gates, payload-carrying UnitaryGates, pre-placed placeholders over constant and parametrised "
         "bases, wire-cut markers; every public transformation audited: deep fingerprints of all arguments before/after, identity of mutable objects "
         "between arguments and results (references kept alive), the same object returned twice, objects shared between the results of two calls, "
-        "destructive edits through the result; compared with the model's prediction (framed; sharing classes as a function of the input's features)")
+        "destructive edits through the result; compared with the model's prediction (framed; sharing classes as a function of the input's features); "
+        "histories (oracle only): chains cut_gates / cut_wires / partition_circuit_qubits over circuits with pre-placed placeholders, wire-cut markers and "
+        "symbolic standard / composite / evolution gates, the last result edited through decompose_qpd_instructions(inplace=True) or "
+        "assign_parameters(inplace=True): every earlier circuit unchanged, later calls as on freshly built twins")
 ASSUMPTIONS = ["the Lean skeletons are transcriptions of the copy / constructor / write sites with Qiskit's observed copy semantics; the runtime audit is the decisive half",
                "identity sharing of classes S1-S4 (DESIGN.md section 3, D6) is a recorded known finding per (function, class); anything else is a violation"]
 LEVEL_TEXT = ("6 Lean 4 theorems over ownership skeletons (frame: full; separation: partial + counterexample) + runtime ownership audit on the real "
@@ -70,8 +73,54 @@ _RESULTS = [
     {"fmt": "v1", "single": True, "subobs": [["ZZ", "XI", "II"]], "nqpd": [10], "ncoef": 2, "shots": 4},
 ]
 
+# HISTORIES (oracle only; the ownership model has no notion of a sequence of calls): a circuit goes through a chain of public calls, each
+# applied to the circuit the previous one returned (cut_gates on the first ordinary two-qubit gate, cut_wires, partition_circuit_qubits);
+# every intermediate circuit is kept.  Then the LAST result is edited destructively through a public in-place interface --
+# "decompose": decompose_qpd_instructions(last, ids, map_ids, inplace=True) selects a map on every placeholder of the last result,
+# "bind": last.assign_parameters(values, inplace=True) binds every unbound Parameter of the last result -- and every earlier object
+# (the arguments of all earlier calls, a second result of the last call) must be exactly as before, and later calls on them must
+# give what they give on freshly built twins.  Inputs: pre-placed placeholders and ordinary gates next to wire-cut markers (cut_wires
+# re-homes existing instructions onto new qubits), symbolic standard gates, and Python-side operations with unbound parameters
+# (composite gate / instruction from to_gate() / to_instruction(), with a Parameter and with an expression, a controlled composite,
+# a Pauli evolution with symbolic time).
+_HIST = [
+    {"nq": 3, "chain": ["cut_gates", "cut_wires"], "edit": "decompose",
+     "instrs": [{"name": "h", "qubits": [0]}, {"name": "cx", "qubits": [0, 1]}, {"name": "cut_wire", "qubits": [1]}, {"name": "cx", "qubits": [1, 2]}]},
+    {"nq": 3, "chain": ["cut_wires"], "edit": "decompose",
+     "instrs": [{"name": "h", "qubits": [0]}, {"name": "qpd", "gate": "cx", "qubits": [0, 1]}, {"name": "cut_wire", "qubits": [1]}, {"name": "cx", "qubits": [1, 2]},
+                {"name": "qpd", "gate": "rzz", "qubits": [2, 0]}]},
+    {"nq": 3, "chain": ["partition", "cut_wires"], "edit": "decompose", "labels": ["A", "B", "B"],
+     "instrs": [{"name": "qpd", "gate": "rzz", "qubits": [0, 1]}, {"name": "cz", "qubits": [0, 2]}, {"name": "cut_wire", "qubits": [2]}, {"name": "cx", "qubits": [1, 2]},
+                {"name": "ry", "qubits": [2], "params": [0.3]}]},
+    {"nq": 2, "chain": ["cut_wires", "cut_gates"], "edit": "decompose",
+     "instrs": [{"name": "ry", "qubits": [0], "params": [0.7]}, {"name": "cx", "qubits": [0, 1]}, {"name": "cut_wire", "qubits": [0]}, {"name": "cx", "qubits": [1, 0]}]},
+    {"nq": 2, "chain": ["cut_wires", "cut_wires"], "edit": "decompose",
+     "instrs": [{"name": "h", "qubits": [0]}, {"name": "cut_wire", "qubits": [0]}, {"name": "qpd", "gate": "cz", "qubits": [0, 1]}, {"name": "cut_wire", "qubits": [1]},
+                {"name": "sx", "qubits": [1]}]},
+    {"nq": 3, "chain": ["cut_wires"], "edit": "bind",
+     "instrs": [{"name": "sym", "gate": "rx", "par": "th", "qubits": [0]}, {"name": "symblk", "form": "gate", "par": "ph", "qubits": [0, 1]},
+                {"name": "cut_wire", "qubits": [1]}, {"name": "cx", "qubits": [1, 2]}, {"name": "sym", "gate": "ry", "par": "th", "qubits": [2]}]},
+    {"nq": 3, "chain": ["cut_wires"], "edit": "bind",
+     "instrs": [{"name": "symblk", "form": "inst_expr", "par": "ph", "qubits": [1, 2]}, {"name": "cut_wire", "qubits": [2]},
+                {"name": "symevo", "par": "th", "qubits": [0, 2]}, {"name": "cut_wire", "qubits": [0]}, {"name": "sym", "gate": "rzz", "par": "ph", "qubits": [0, 1]}]},
+    {"nq": 3, "chain": ["cut_gates", "cut_wires"], "edit": "bind",
+     "instrs": [{"name": "symblk", "form": "gate", "par": "ph", "qubits": [0, 1]}, {"name": "cx", "qubits": [1, 2]}, {"name": "cut_wire", "qubits": [1]},
+                {"name": "symblk", "form": "ctrl", "par": "th", "qubits": [2, 0, 1]}]},
+    {"nq": 3, "chain": ["cut_gates"], "edit": "bind",
+     "instrs": [{"name": "symblk", "form": "ctrl", "par": "ph", "qubits": [0, 1, 2]}, {"name": "cz", "qubits": [0, 2]}, {"name": "symevo", "par": "ph", "qubits": [1, 2]}]},
+    {"nq": 3, "chain": ["partition"], "edit": "bind", "labels": ["A", "A", "B"],
+     "instrs": [{"name": "symblk", "form": "gate_expr", "par": "ph", "qubits": [1, 0]}, {"name": "cx", "qubits": [1, 2]}, {"name": "sym", "gate": "rz", "par": "th", "qubits": [2]},
+                {"name": "symblk", "form": "inst", "par": "th", "qubits": [0, 1]}]},
+    {"nq": 2, "chain": ["cut_wires", "cut_gates"], "edit": "bind",
+     "instrs": [{"name": "symblk", "form": "inst", "par": "ph", "qubits": [0, 1]}, {"name": "cut_wire", "qubits": [0]}, {"name": "cx", "qubits": [0, 1]},
+                {"name": "symblk", "form": "gate", "par": "ph", "qubits": [1, 0]}]},
+]
+
 
 def cases(rng, tier):
+    for k, spec in enumerate(_HIST):
+        yield ("history", {"fn": "history", "nq": spec["nq"], "instrs": spec["instrs"], "labels": spec.get("labels"), "chain": spec["chain"], "edit": spec["edit"],
+                           "marker": False, "meta": k % 2 == 1, "oracle_only": True, "always_oracle": True})
     for k, spec in enumerate(_WIRES):
         yield ("audit", {"fn": "cut_wires", "nq": spec["nq"], "instrs": spec["instrs"], "labels": ["A"] * (spec["nq"] - 1) + ["B"],
                          "obs": ["ZXIY"[: spec["nq"]], "IZZX"[: spec["nq"]]], "marker": k % 2 == 1, "meta": k % 3 == 0, "seed": 31 + k,
@@ -110,11 +159,36 @@ def cases(rng, tier):
                          "meta": rng.random() < 0.5, "seed": rng.randrange(1 << 30)})
 
 
-def _op(ins):
+def _sym_op(ins, pars):
+    """operations with an unbound Parameter (one Parameter object per name and circuit build: `pars`)"""
+    from qiskit.circuit import Parameter, QuantumCircuit
+    p = pars.setdefault(ins["par"], Parameter(ins["par"]))
+    nm = ins["name"]
+    if nm == "sym":
+        from qiskit.circuit.library import RXGate, RYGate, RZGate, RZZGate, CRXGate
+        return {"rx": RXGate, "ry": RYGate, "rz": RZGate, "rzz": RZZGate, "crx": CRXGate}[ins["gate"]](p)
+    if nm == "symevo":
+        from qiskit.circuit.library import PauliEvolutionGate
+        from qiskit.quantum_info import SparsePauliOp
+        return PauliEvolutionGate(SparsePauliOp(["ZZ", "XI"], [1.0, 0.5]), time=p)
+    form = ins["form"]
+    arg = 2 * p if form.endswith("_expr") else p
+    sub = QuantumCircuit(2, name="blk")
+    sub.rzz(arg, 0, 1)
+    sub.rx(arg, 0)
+    sub.cx(0, 1)
+    if form.startswith("inst"):
+        return sub.to_instruction()
+    return sub.to_gate().control(1) if form == "ctrl" else sub.to_gate()
+
+
+def _op(ins, pars=None):
     from qiskit.circuit.library import UnitaryGate
     from qiskit.quantum_info import random_unitary
     from qiskit_addon_cutting.qpd import TwoQubitQPDGate
     nm = ins["name"]
+    if nm in ("sym", "symblk", "symevo"):
+        return _sym_op(ins, {} if pars is None else pars)
     if nm == "cut_wire":
         from qiskit_addon_cutting.instructions import CutWire
         return CutWire()
@@ -138,10 +212,11 @@ def _circuit(payload, drop_qpd=False, marker=False, drop_marker=False):
     from qiskit.circuit import QuantumCircuit
     from qiskit_addon_cutting.instructions import CutWire
     qc = QuantumCircuit(payload["nq"])
+    pars = {}
     for ins in payload["instrs"]:
         if drop_qpd and ins["name"] == "qpd":
             continue
-        qc.append(_op(ins), ins["qubits"])
+        qc.append(_op(ins, pars), ins["qubits"])
     if marker and payload["marker"] and not drop_marker:
         qc.append(CutWire(), [0])
     if payload.get("meta"):
@@ -283,7 +358,151 @@ def _observe(payload):
             "cross": cross, "repeatable": same_again, "features": feats}
 
 
+# ---------------------------------------------------------------------------------------------------------------- histories
+_CUTTABLE = ("cx", "cz", "ch", "rzz", "crx", "cry", "crz", "swap")
+
+
+def _hist_step(payload, step, c):
+    import qiskit_addon_cutting as P
+    from qiskit.circuit import ParameterExpression
+    if step == "cut_gates":
+        ids = [i for i, x in enumerate(c.data) if len(x.qubits) == 2 and x.operation.name in _CUTTABLE
+               and not any(isinstance(q, ParameterExpression) for q in x.operation.params)][:1]
+        return P.cut_gates(c, ids)[0]
+    if step == "cut_wires":
+        return P.cut_wires(c)
+    if step == "partition":
+        return P.partition_circuit_qubits(c, payload["labels"])
+    raise ValueError("unknown step " + step)
+
+
+def _hist_run(payload):
+    """[c0, c1, .., cn]: the circuit of the payload and the result of every call of the chain (call k is applied to c(k-1))"""
+    objs = [_circuit(payload)]
+    for step in payload["chain"]:
+        objs.append(_hist_step(payload, step, objs[-1]))
+    return objs
+
+
+def _hist_ids(c):
+    """instruction ids of the placeholders of c, one group per cut (the two halves of one cut carry the same label)"""
+    from qiskit_addon_cutting.qpd import BaseQPDGate
+    groups = {}
+    for i, x in enumerate(c.data):
+        if isinstance(x.operation, BaseQPDGate):
+            groups.setdefault(("half", x.operation.label) if hasattr(x.operation, "qubit_id") else ("slot", i), []).append(i)
+    return list(groups.values())
+
+
+def _hist_edit(payload, last):
+    """destructive edit of the last result through a public in-place interface; -> description, or None if there is nothing to edit"""
+    from qiskit_addon_cutting.qpd import decompose_qpd_instructions
+    if payload["edit"] == "bind":
+        ps = sorted(last.parameters, key=lambda q: q.name)
+        if not ps:
+            return None
+        vals = {q: 0.5 + 0.25 * k for k, q in enumerate(ps)}
+        last.assign_parameters(vals, inplace=True)
+        return "assign_parameters({%s}, inplace=True)" % ", ".join("%s: %s" % (q.name, v) for q, v in vals.items())
+    ids = _hist_ids(last)
+    if not ids:
+        return None
+    maps = [(k + 3) % len(last.data[g[0]].operation.basis.maps) for k, g in enumerate(ids)]
+    decompose_qpd_instructions(last, ids, maps, inplace=True)
+    return f"decompose_qpd_instructions(.., {ids}, map_ids={maps}, inplace=True)"
+
+
+def _hist_fp(c):
+    return (audit.fp(c), audit.fp_defs(c))
+
+
+def _hist_diff(c, before):
+    """first instruction of c whose fingerprint is not the one recorded in `before` (= _hist_fp(c) at an earlier time)"""
+    def short(s):  # name, label, parameters, selected map; the basis is left out
+        try:
+            d = eval(s)
+            return repr(d[:4] + ["<basis>"] + d[5:] if len(d) > 4 else d)
+        except Exception:
+            return s[:160]
+    try:
+        now = [audit.fp_op(i.operation) for i in c.data]
+        was = [t[0] for t in eval(before[0])[6]]
+        for k, (a, b) in enumerate(zip(was, now)):
+            if a != b:
+                return f"instruction {k}: was {short(a)} now {short(b)}"
+        d0, d1 = eval(before[1]), eval(audit.fp_defs(c))
+        for k, (a, b) in enumerate(zip(d0, d1)):
+            if a != b:
+                return f"instruction {k}: was {str(a)[:160]} now {str(b)[:160]}"
+    except Exception:
+        pass
+    return "fingerprints differ"
+
+
+def _hist_later(c):
+    """outcome of a later public call on c that depends on the state of its instruction objects: decomposition WITHOUT map ids (must be
+    refused unless a map was selected on c itself) and with the first map everywhere; plus a second cut_wires call"""
+    import qiskit_addon_cutting as P
+    from qiskit_addon_cutting.qpd import decompose_qpd_instructions
+    ids = _hist_ids(c)
+    out = []
+    for maps in ([None, [0] * len(ids)] if ids else []):
+        try:
+            out.append(_hist_fp(decompose_qpd_instructions(c, ids, maps)))
+        except Exception as ex:
+            out.append("refused: " + type(ex).__name__)
+    try:
+        out.append(_hist_fp(P.cut_wires(c)))
+    except Exception as ex:
+        out.append("refused: " + type(ex).__name__)
+    return out
+
+
+def _history_oracle(payload):
+    chain = payload["chain"]
+    objs, twin = _hist_run(payload), _hist_run(payload)
+    last = objs[-1]
+    sibling = _hist_step(payload, chain[-1], objs[-2])  # a second result of the last call, returned before the edit
+    names = ["the circuit given to " + chain[0]] + [f"the circuit returned by {chain[k]} (call {k + 1}) and given to {chain[k + 1]} (call {k + 2})" for k in range(len(chain) - 1)]
+    held = list(zip(names, objs[:-1])) + [(f"another circuit returned by {chain[-1]} for the same argument", sibling)]
+    before = [_hist_fp(c) for _, c in held]
+    ref_last = _hist_fp(last)
+    if [_hist_fp(c) for c in twin] != [_hist_fp(c) for c in objs]:
+        return f"function={chain[-1]} class=HISTORY: the chain {chain} applied to two identically built circuits gave different circuits"
+    did = _hist_edit(payload, last)
+    if did is None:
+        return None
+    where = f"the circuit returned by the chain {' -> '.join(chain)}"
+    try:
+        for (nm, c), b in zip(held, before):
+            if _hist_fp(c) != b:
+                return f"function={chain[-1]} class=EDIT-INPLACE: {did} on {where} changed {nm}: {_hist_diff(c, b)}"
+        # later calls: the last call again on its (kept) argument, the whole chain again on the first circuit and on a newly built one,
+        # and calls on every kept circuit
+        if _hist_fp(_hist_step(payload, chain[-1], objs[-2])) != ref_last:
+            return (f"function={chain[-1]} class=EDIT-INPLACE: after {did} on {where}, calling {chain[-1]} again on the same argument gives a different "
+                    f"circuit than the first time")
+        if _hist_fp(_rechain(payload, objs[0])) != ref_last or _hist_fp(_hist_run(payload)[-1]) != ref_last:
+            return f"function={chain[-1]} class=EDIT-INPLACE: after {did} on {where}, the same chain of calls on the same first circuit gives a different result"
+        for (nm, c), t in zip(held[:-1], twin[:-1]):
+            if _hist_later(c) != _hist_later(t):
+                return (f"function={chain[-1]} class=EDIT-INPLACE: after {did} on {where}, later calls (decompose_qpd_instructions without map ids / with map 0, "
+                        f"cut_wires) on {nm} give something else than on an identically built circuit whose result was never edited")
+    except Exception as ex:
+        return f"function={chain[-1]} class=EDIT-INPLACE: after {did} on {where}, a later call that worked before fails: {type(ex).__name__}: {ex}"
+    return None
+
+
+def _rechain(payload, c):
+    for step in payload["chain"]:
+        c = _hist_step(payload, step, c)
+    return c
+
+
 def model_line(kind, payload):
+    if kind == "history":
+        # a sequence of calls is outside the ownership model: nothing to compare, the oracle decides
+        return {"op": "c16.predict", "fn": "cut_wires", "preplaced": False, "payload": False, "map_ops": False, "param_ops": False}
     try:
         _, _, feats = _setup(payload)
     except Exception:
@@ -292,6 +511,9 @@ def model_line(kind, payload):
 
 
 def run_real(kind, payload):
+    if kind == "history":
+        objs = _hist_run(payload)
+        return {"ok": {"history": [len(c.data) for c in objs]}}
     ob = _observe(payload)
     return {"ok": {k: ob[k] for k in ("mutated", "classes", "dup", "cross", "repeatable", "alias")}}
 
@@ -303,6 +525,8 @@ def model_canon(kind, payload, out):
 
 
 def compare(kind, payload, real, model):
+    if kind == "history":
+        return None
     if "error" in real:
         return None  # the request itself was refused (e.g. unsupported spanning gate): nothing to audit
     r, m = real["ok"], model["ok"]
@@ -326,6 +550,8 @@ def compare(kind, payload, real, model):
 
 
 def describe(kind, payload):
+    if kind == "history":
+        return {"fn": "history", "history": "+".join(payload["chain"]) + "/" + payload["edit"]}
     return {"fn": payload["fn"]}
 
 
@@ -458,6 +684,13 @@ def _confirm_alias(payload):
 
 
 def oracle(kind, payload):
+    if kind == "history":
+        try:
+            return _history_oracle(payload)
+        except ValueError:
+            return None  # a call of the chain refused the request
+        except Exception as ex:
+            return f"function={payload['chain'][-1]} history audit crashed: {type(ex).__name__}: {ex}"
     try:
         ob = _observe(payload)
     except ValueError:
